@@ -85,14 +85,10 @@ class ConsoleNb(object):
         try:
             line = os.read(self.fd, bs)
         except OSError as ex1:  #if no chars available generates exception
-            try: #need to catch correct exception
-                errno = ex1.args[0] #if args not sequence get TypeError
-                if errno == 35:
-                    pass #No characters available
-                else:
-                    raise #re raise exception ex1
-            except TypeError as ex2:  #catch args[0] mismatch above
-                raise ex1 #ignore TypeError, re-raise exception ex1
+            if ex1.errno == errno.EAGAIN: #BSD 35, Linux 11
+                pass #No characters available
+            else:
+                raise #re raise exception ex1
 
         return line
 
